@@ -503,6 +503,8 @@ def run(ctx, rep):
     c04_magnitude.run_errrun(ctx, rep, rid="R-C12-errrun")
     from rules.c14 import rule_samestr
     rule_samestr(ctx, rep, rid="R-C12-samestr")
+    from rules.c04 import rule_emptyok
+    rule_emptyok(ctx, rep, rid="R-C12-emptyok")
     from rules import c04_backtrack
     c04_backtrack.run(ctx, rep, rid="R-C12-backtrack")
     from rules import c04_recursion
